@@ -121,3 +121,98 @@ Theorem C03_custom_empty_payload :
   accepted (DecodeModule (repaired 4294967295) in_custom_empty_mid) = true.
 Proof. exact custom_empty_payload. Qed.
 Print Assumptions C03_custom_empty_payload.
+
+(* ================================================================ type soundness of validation for W
+   (added later; supersedes the "NOT proved" remark in the header as far as the REFERENCE semantics is concerned:
+   func_validation.go itself is still tied by execution only)
+   Wasm/Validate.v is an executable type checker for the instruction set of the reference semantics W
+   (Wasm/Sem.v) over a typed mirror syntax ([erase] forgets the block types): value-type stack, label stack,
+   locals/globals, loads/stores, structured control with parameters, br/br_if/br_table/return, call against the
+   callee's signature, call_indirect against the type section; after an unconditional transfer only the end of
+   the sequence is accepted (dead code is rejected: sound, stricter than the specification). [store_okb T s]:
+   every function body of T checks in its instance's context, tables name existing functions, instance index
+   maps are in range, globals hold values of their types, memories are within their bounds and hold bytes.
+   Proofs/ValidateP.v proves preservation and progress by induction on the fuel (exec_sound / exec_typed). *)
+From Coq Require Import ZArith List.
+From Verif Require Import Wasm.Numerics Wasm.Sem Wasm.Validate Proofs.ValidateP.
+Import ListNotations.
+
+(* a validated store, host functions that respect their declared types, a history of calls with well-typed
+   arguments: NO call of the history ends in TStuck (the reference semantics' "ill-formed situation": operand
+   stack underflow, missing local/global/function/memory/table, ...), for every fuel, call depth bound and
+   listener set; and the store reached is again a validated store *)
+Theorem C03_validated_no_stuck :
+  forall (T : tenv) (host : nat -> list Z -> hostres Z) (listened : nat -> bool) (maxdepth : nat)
+         (s : store Spec) (calls : list (nat * list Z)) (fuel : nat),
+  s_funcs s = map erase_func (t_funcs T) -> store_okb T s = true ->
+  (forall fa h tp tr args, nth_error (t_funcs T) fa = Some (TFHost h tp tr) ->
+     Forall2 (fun w v => 0 <= v < 2 ^ w) tp args ->
+     match host h args with
+     | HRet vs => Forall2 (fun w v => 0 <= v < 2 ^ w) tr vs
+     | HReenter g gargs =>
+         exists gi gtp gtl gb, nth_error (t_funcs T) g = Some (TFWasm gi gtp tr gtl gb) /\
+                               Forall2 (fun w v => 0 <= v < 2 ^ w) gtp gargs
+     | _ => True
+     end) ->
+  Forall (fun c => exists fd, nth_error (t_funcs T) (fst c) = Some fd /\
+                              Forall2 (fun w v => 0 <= v < 2 ^ w) (fst (tsig fd)) (snd c)) calls ->
+  let r := run_calls Spec host listened maxdepth fuel s calls in
+  ~ In (RTrap TStuck) (snd r) /\
+  s_funcs (fst r) = map erase_func (t_funcs T) /\ store_okb T (fst r) = true.
+Proof. exact validated_no_stuck. Qed.
+Print Assumptions C03_validated_no_stuck.
+
+(* one export call: results are well-formed values of the declared result types (0 <= v < 2^w) *)
+Theorem C03_validated_call_results_typed :
+  forall (T : tenv) (host : nat -> list Z -> hostres Z) (listened : nat -> bool) (maxdepth : nat),
+  host_ok host T ->
+  forall fuel (s : store Spec) fa fd args,
+  store_ok T s -> nth_error (t_funcs T) fa = Some fd -> Forall2 wfv (fst (tsig fd)) args ->
+  store_ok T (fst (call_export Spec host listened maxdepth fuel s fa args)) /\
+  match snd (call_export Spec host listened maxdepth fuel s fa args) with
+  | RVals vs => Forall2 wfv (snd (tsig fd)) vs
+  | RTrap t => t <> TStuck
+  | RFuel => True
+  end.
+Proof. exact validated_call_typed. Qed.
+Print Assumptions C03_validated_call_results_typed.
+
+(* preservation and progress at the level of instruction sequences: from a validated store and a frame typed by
+   the checker's input state (stack types [st], local types [lt]), whatever [exec] returns is typed by what the
+   checker computed: fall-through with the output stack type (never after an unconditional transfer), a branch
+   with the target label's types on top of the stack, a return with the function's result types on top; a trap
+   is never TStuck; the store is again validated *)
+Theorem C03_validated_exec_typed :
+  forall (T : tenv) (host : nat -> list Z -> hostres Z) (listened : nat -> bool) (maxdepth : nat),
+  host_ok host T ->
+  forall fuel depth ii (s : store Spec) stk lcs lt rt L tis st res,
+  store_ok T s -> check_seq T (the_inst Spec s ii) lt rt L tis (STy st) = Some res ->
+  Forall2 wfv st stk -> Forall2 wfv lt lcs ->
+  match exec Spec host listened maxdepth fuel depth ii s (Build_frame Spec stk lcs) (map erase tis) with
+  | Normal s' f' =>
+      store_ok T s' /\ match res with
+                       | STy st' => Forall2 wfv st' (stack f') /\ Forall2 wfv lt (locals f')
+                       | SBot => False end
+  | Branch n s' f' =>
+      store_ok T s' /\ (exists l, nth_error L n = Some l /\ Forall2 wfv l (firstn (length l) (stack f'))) /\
+      Forall2 wfv lt (locals f')
+  | Ret s' f' => store_ok T s' /\ Forall2 wfv rt (firstn (length rt) (stack f'))
+  | Trap t s' => store_ok T s' /\ t <> TStuck
+  | OutOfFuel => True
+  end.
+Proof. exact (fun T host listened maxdepth => exec_typed host listened maxdepth T). Qed.
+Print Assumptions C03_validated_exec_typed.
+
+(* the checker accepts a concrete multi-function program (loop, call, call_indirect, memory, globals, host call,
+   br_if with a value, br_table) and rejects ill-typed code (i32.add on i64 operands, a br that owes its label a
+   value, call_indirect without an index, a wrong result type, dead code) *)
+Theorem C03_validator_accepts_and_rejects :
+  valid_storeb ex_T ex_store = true /\
+  check_seq ex_T ex_me [] [] [[]] [TConst 64 1; TConst 64 2; TBin (BInt 32 Add)] (STy []) = None /\
+  check_seq ex_T ex_me [] [] [[]] [TBlock [] [32] [TBr 0]] (STy []) = None /\
+  check_seq ex_T ex_me [] [] [[]] [TConst 32 7; TCallIndirect 0] (STy []) = None /\
+  func_okb ex_T (s_insts ex_store) (TFWasm 0 [] [32] [] [TConst 64 1]) = false /\
+  check_seq ex_T ex_me [] [] [[]] [TBr 0; TNop] (STy []) = None.
+Proof. exact (conj ex_valid (conj (proj1 ex_rejects) (conj (proj1 (proj2 ex_rejects)) (conj (proj1 (proj2 (proj2 ex_rejects)))
+         (conj (proj1 (proj2 (proj2 (proj2 ex_rejects)))) (proj1 (proj2 (proj2 (proj2 (proj2 ex_rejects)))))))))). Qed.
+Print Assumptions C03_validator_accepts_and_rejects.
